@@ -51,6 +51,12 @@ def channel_pushforward(channel_sampler) -> dict[tuple, float]:
     return dist
 
 
+def unjitted_component_sampler(S):
+    """the python function behind the jitted forwarder tsim.sampler._sample_component_jit (whatever its body is now);
+    falls back to _sample_component when the forwarder is not a jax.jit wrapper"""
+    return getattr(S._sample_component_jit, "__wrapped__", S._sample_component)
+
+
 def forced_conditionals(sampler, f_assignments=None, max_outputs=14):
     """For each f assignment: array over all 2^n outcomes (itertools.product order) of the probability the real
     sampler assigns to that outcome. Returns (outcomes ndarray [2^n, n], {f: probs})."""
@@ -91,7 +97,7 @@ def forced_conditionals(sampler, f_assignments=None, max_outputs=14):
         # function it wraps, so that bernoulli sees concrete probabilities; `evaluate` stays jitted
         jax.random.bernoulli = fake
         jit_orig = S._sample_component_jit
-        S._sample_component_jit = S._sample_component
+        S._sample_component_jit = unjitted_component_sampler(S)
         try:
             out = np.asarray(S.sample_program(prog, f_params, jax.random.key(0)))
         finally:
